@@ -38,7 +38,9 @@ RULE = ('one case = (dtype, operation variant incl. shapes/axes/keys, input arra
         'PRSS single-party runs: seeded only; multi-party (m=3,t=1, PRSS on/off): the operations flagged for it on the first, '
         'middle and last inputs of their quick domain under seeded / all-max / all-zero patterns.  Reference preconditions not met (value leaves '
         'the l-bit range, division by 0) => case not evaluated.  Failures that disappear when ONLY the np_trunc masks r_divf '
-        '(bound 2^(k+l-f\')) are forced to their maximum are keyed C37:np_trunc:secfxp:mask-range with the call site in the text. '
+        '(bound 2^(k+l-f\')) are forced to their maximum are keyed C37:np_trunc:secfxp:mask-range with the call site in the text (PRSS / '
+        'multi-party runs, where single masks cannot be dictated: truncating fixed-point operations whose result is off by more than 16 '
+        'units, or wrong only under the all-zero pattern). '
         'non-trivial = at least one random draw or more than one party or non-scalar shape')
 ASSUMPTIONS = [
     'mc/ref/npref.py + mc/ref/fields.py + mc/ref/shamir.py (reference elements and fields) and NumPy\'s generic dtype=object '
@@ -1159,6 +1161,24 @@ class Ctx:
         dt = self.dt
         return [dt.elem(c[0]) if s == 'S' else dt.ref_array(s, c) for s, c in zip(op.shapes, inputs)]
 
+    def scalar_reference(self, op, inputs):
+        """Reference for the scalar oracle: as `want`, but fixed-point products are truncated one by one (each secure scalar
+        multiplication truncates), evaluated with the same NumPy expression that runs on the secure scalars."""
+        dt = self.dt
+        if dt.kind != 'secfxp' or not op.trunc:
+            return None
+        T = dt.Fx.T
+        try:
+            args = [obj_array(self.np, () if s == 'S' else s, [T(c) for c in cs]) for s, cs in zip(op.shapes, inputs)]
+            sc = op.scal if callable(op.scal) else op.fn
+            w = dt.norm_ref(sc(*args))
+            _chk_all(dt, w)
+            return w
+        except Skip:
+            return 'skip'
+        except Exception:           # scal uses runtime functions (mpc.sgn, ...): no multiplication involved, same reference
+            return None
+
     def scal_args(self, op, inputs):
         dt = self.dt
         return [dt.scal_array((), c) if s == 'S' else dt.scal_array(s, c) for s, c in zip(op.shapes, inputs)]
@@ -1256,6 +1276,8 @@ def run_one(part, ctx, op, inputs, want, mode, script, scalar=False):
         if fail in ('declared-shape', 'value-shape') and not isinstance(want, list) and want[1] == () \
                 and getattr(r, 'shape', None) == (1,) and any(sh == () for sh in op.shapes):
             key = f'C37:{op.site}:declared-shape:0d-array-with-scalar-operand'
+        if dt.kind == 'secfxp' and fail == 'value' and ctx.prss and op.trunc and far_off(dt, got, want):
+            key = 'C37:np_trunc:secfxp:mask-range'      # PRSS masks cannot be dictated: a field-wrap value under k=4 is this finding
         if dt.kind == 'secfxp' and fail == 'value' and not ctx.prss:
             sc2 = trunc_mask_script(ctx, draws)
             if sc2:
@@ -1271,9 +1293,12 @@ def run_one(part, ctx, op, inputs, want, mode, script, scalar=False):
     elif len(part.samples) < 2 and draws and mode == 'zero':
         part.sample(dict(config=ctx.cfg, op=op.name, inputs=[list(c) for c in inputs], masks=mode, draws=len(draws), result=_show(got)))
     if scalar and op.scal and mode == 'seeded':
+        swant = ctx.scalar_reference(op, inputs) or want
+        if swant == 'skip':
+            return draws
         try:
             sgot = ctx.scalar_oracle(op, inputs)
-            sfail = compare(dt, sgot, want, False)
+            sfail = compare(dt, sgot, swant, False)
         except Exception as exc:
             sgot, sfail = repr(exc)[:120], 'exception'
         part.case(key=None, nontrivial=True)
@@ -1281,8 +1306,22 @@ def run_one(part, ctx, op, inputs, want, mode, script, scalar=False):
         if sfail:
             part.violation(f'C37:{op.site}:{op.vclass}:{dt.kind}:scalar-oracle:{sfail}'.replace('::', ':'),
                            f'{tag}: the same expression on secure scalars gives {_show(sgot)}, array result {_show(got)}, reference '
-                           f'{_show(want)}', dict(detail_of(ctx, op, inputs, mode, script), scalar=True))
+                           f'{_show(swant)} (for the array: {_show(want)})', dict(detail_of(ctx, op, inputs, mode, script), scalar=True))
     return draws
+
+
+def far_off(dt, got, want):
+    """True if some opened fixed-point code is more than 16 units away from its reference interval (field wrap-around)."""
+    if isinstance(want, list):
+        return isinstance(got, list) and any(far_off(dt, g, w) for g, w in zip(got, want))
+    if isinstance(got, list) or got[0] != 'A':
+        return False
+    for g, w in zip(got[2], want[2]):
+        if isinstance(g, int):
+            w = dt.Fx.of(w)
+            if g < w.lo - 16 or g > w.hi + 16:
+                return True
+    return False
 
 
 def _fmt(inputs):
@@ -1423,7 +1462,8 @@ def make_mp_program(dtname):
                 fail = compare(dt, got, want, op.public) or decl
                 if not fail and not op.public:
                     fail = decl_check(dt, r, want, got)
-                res.append(('ok', fail, _show(got), _show(want), repr(declared(r))[:80]))
+                res.append(('ok', fail, _show(got), _show(want), repr(declared(r))[:80],
+                            bool(fail == 'value' and dt.kind == 'secfxp' and op.trunc and far_off(dt, got, want))))
             except Exception as exc:
                 res.append(('raised', type(exc).__name__, repr(exc)[:160]))
             if idx % 4 == 3:
@@ -1491,7 +1531,7 @@ def run_mp(job):
             key = f'C37:{op.site}:{op.vclass}:{dt0.kind}:{r0[1]}'.replace('::', ':')
             if r0[1] in ('declared-shape', 'value-shape', 'structure'):
                 key = f'C37:{op.site}:{op.vclass}:{r0[1]}'.replace('::', ':')
-            if dt0.kind == 'secfxp' and r0[1] == 'value' and pat == 'zero' and passed_other:
+            if dt0.kind == 'secfxp' and r0[1] == 'value' and ((pat == 'zero' and passed_other) or r0[5]):
                 key = 'C37:np_trunc:secfxp:mask-range'
             part.violation(key, f'{tag} = {r0[2]} (declared {r0[4]}), reference {r0[3]} (masks {pat})', detail)
             return False
@@ -1521,7 +1561,7 @@ def run_mp(job):
                     part.case(key=None)
                     errs = sorted({e.get('exception') or '' for pe in world.loop_errors for e in pe})
                     cls = errs[0].split('(')[0] if errs else status1
-                    part.violation(f'C37:mp:{op.site}:{op.vclass}:{dt0.kind}:incomplete:{cls}'.replace('::', ':'),
+                    part.violation((f'C37:{op.site}:{op.vclass}:exception:{cls}' if errs else f'C37:mp:{op.site}:{op.vclass}:incomplete:{cls}').replace('::', ':'),
                                    f'[{cfg}] {name}{_fmt(inputs)}: execution ends {status1}: {errs!r:.300} (masks {pat})',
                                    dict(engine='mp', dt=dtname, no_prss=no_prss, name=name, inputs=[list(c) for c in inputs], pat=pat,
                                         seed=job['seed'], tier=job['tier']))
